@@ -846,6 +846,68 @@ def o_entry(case, T):
 
 # ----------------------------------------------------------------------------- utm alias naming the source's own CRS
 @st.composite
+def s_utm_other_hemisphere(draw):
+    """A raster stored in the UTM zone of the *other* hemisphere (Landsat-style: southern scenes in EPSG:326xx with
+    negative northings; or northern scenes in 327xx), asked to go to 'utm' / 'utm-n' / 'utm-s'."""
+    zone = draw(st.sampled_from([1, 18, 33, 55, 60, draw(st.integers(2, 59))]))
+    stored_south = draw(st.booleans())
+    lon = -180 + 6 * (zone - 1) + draw(st.floats(1.5, 4.5))
+    lat = draw(st.floats(4.0, 45.0)) * (1 if stored_south else -1)  # the scene lies in the other hemisphere
+    return {"zone": zone, "stored_south": stored_south, "lonlat": [lon, lat], "res": draw(st.sampled_from([10.0, 30.0, 100.0])),
+            "shape": draw(st.sampled_from([[5, 7], [64, 64], [300, 200]])), "alias": draw(st.sampled_from(["utm", "utm", "utm-n", "utm-s"])),
+            "entry": draw(st.sampled_from(["compute_output_geobox", "to_crs"]))}
+
+
+def o_utm_other_hemisphere(case, T):
+    """'utm / utm-n / utm-s requests resolve to a UTM CRS whose valid area overlaps the raster, in the requested
+    hemisphere' - the source's own CRS being *a* UTM zone does not make it the right one."""
+    from affine import Affine
+    from odc.geo.geobox import GeoBox
+    from odc.geo.overlap import compute_output_geobox
+    from pyproj import CRS as P
+    from pyproj import Transformer
+
+    zone = case["zone"]
+    epsg = (32700 if case["stored_south"] else 32600) + zone
+    lon, lat = case["lonlat"]
+    x, y = Transformer.from_crs(4326, epsg, always_xy=True).transform(lon, lat)
+    res = case["res"]
+    ny, nx = case["shape"]
+    A = Affine(res, 0, math.floor(x / res) * res - res * (nx // 2), 0, -res, math.floor(y / res) * res + res * (ny // 2))
+    src = GeoBox((ny, nx), A, epsg)
+    out = compute_output_geobox(src, case["alias"]) if case["entry"] == "compute_output_geobox" else src.to_crs(case["alias"])
+    got = out.crs.epsg
+    require(got is not None and (32601 <= got <= 32660 or 32701 <= got <= 32760), "request %r for a raster at lon %.3f lat %.3f stored in EPSG:%d resolved to %s - not a WGS84 UTM zone",
+            case["alias"], lon, lat, epsg, str(out.crs)[:40])
+    got_south = got >= 32700
+    got_zone = got % 100
+    scene_south = lat < 0
+    if case["alias"] == "utm":
+        # valid area of the chosen zone must overlap the raster: same hemisphere as the scene (it is >= 4 degrees from
+        # the equator), same zone as its centre (1.5 degrees inside it)
+        aou = P.from_epsg(got).area_of_use
+        require(aou.south <= lat <= aou.north and aou.west - 1e-9 <= lon <= aou.east + 1e-9, "'utm' for a raster at lon %.3f lat %.3f (stored in EPSG:%d) resolved to EPSG:%d whose area of use is lon %.1f..%.1f lat %.1f..%.1f - it does not contain the raster",
+                lon, lat, epsg, got, aou.west, aou.east, aou.south, aou.north)
+        require(got_south == scene_south and got_zone == zone, "'utm' resolved to EPSG:%d for a scene at lon %.3f lat %.3f", got, lon, lat)
+    else:
+        require(got_south == (case["alias"] == "utm-s") and got_zone == zone, "%r resolved to EPSG:%d (zone %d expected)", case["alias"], got, zone)
+    # enclosure of the source (corner lattice) in the result
+    tr = Transformer.from_crs(epsg, got, always_xy=True)
+    inv = ~out.affine
+    oh, ow = out.shape
+    for i in range(0, nx + 1, max(1, nx // 8)):
+        for j in range(0, ny + 1, max(1, ny // 8)):
+            wx, wy = A * (i, j)
+            px, py = inv * tr.transform(wx, wy)
+            require(-0.011 <= px <= ow + 0.011 and -0.011 <= py <= oh + 0.011, "source pixel corner (%d,%d) lands at (%.3f, %.3f) outside the %dx%d result", i, j, px, py, oh, ow)
+    if got == epsg:
+        T.cls("same_crs_as_stored")
+    T.cls("alias:" + case["alias"])
+    T.cls("stored:" + ("south" if case["stored_south"] else "north"))
+    T.nontrivial((zone, case["stored_south"], case["alias"], case["entry"]))
+
+
+@st.composite
 def s_utm_alias_same(draw):
     zone = draw(st.integers(1, 60))
     south = draw(st.booleans())
@@ -912,6 +974,7 @@ def o_utm_alias_same(case, T):
 
 
 def build(chk: Check) -> None:
+    chk.sub("utm_other_hemisphere", o_utm_other_hemisphere, strategy=s_utm_other_hemisphere(), n={"quick": 150, "thorough": 5000}, budget_s={"quick": 40, "thorough": 100})
     chk.sub("utm_alias_same", o_utm_alias_same, strategy=s_utm_alias_same(), n={"quick": 120, "thorough": 4000}, budget_s={"quick": 40, "thorough": 100})
     # cost per case is dominated by the code under test (~25 ms: pure-python densify of the buffered footprint;
     # ~100 ms for utm* because every request queries the CRS database)
